@@ -193,9 +193,10 @@ func (g *Gateway) handleLegacyProtocol(w http.ResponseWriter, r *http.Request, t
 		log.Printf("Opening RDGOUT for client %s", id.GetAttribute(identity.AttrClientIp))
 
 		t.transportOut = out
-		out.SendAccept(true)
-
+		// register before accepting: the client sends RDG_IN_DATA as soon as it sees the accept
 		c.Set(t.RDGId, t, cache.DefaultExpiration)
+
+		out.SendAccept(true)
 	} else if r.Method == MethodRDGIN {
 		legacyConnections.Inc()
 		defer legacyConnections.Dec()
